@@ -143,6 +143,10 @@ pub struct Case {
     /// instead of `emit::props! { <attr> v: x }`
     #[serde(default)]
     pub emit_macro: bool,
+    /// (emit! sites only) the event is handed to the real sinks -- rolling file, OTLP logs as JSON and as
+    /// protobuf -- and the property is read back from what they wrote ("via each sink")
+    #[serde(default)]
+    pub sinks: bool,
 }
 
 pub const STATICS: [&str; 8] = ["", "static text", "info", "0000000000000001", "caf\u{e9} \u{1F600}", "line\nbreak\t\"q\"", "1.5", "null"];
